@@ -1,7 +1,10 @@
 ---------------------------- MODULE OrderedSet ----------------------------
 (* xtuml.tools.OrderedSet and xtuml.meta.QuerySet as a state machine.           *)
 (* State: s, the elements in iteration order.  Every public operation is one    *)
-(* total action that also computes the outcome `res` of the call.               *)
+(* total action that also computes the outcome `res` of the call.  A second set  *)
+(* r is the result of the latest pure operator: it is a set of its own - what    *)
+(* happens to one of the two never shows in the other; Swap makes r the set the   *)
+(* following calls address (and parks s), so both are driven through every action. *)
 (* Where the property (C17) is silent -- the iteration order of the *result* of *)
 (* a pure operator, and where ^= places elements that were not members -- the   *)
 (* action is nondeterministic over all orders the property allows.              *)
@@ -11,9 +14,10 @@ CONSTANTS Elem,        \* finite universe of elements (naturals)
           MaxArg       \* maximal length of a sequence argument
 
 VARIABLES s,           \* duplicate-free sequence: the set in iteration order
+          r,           \* the other set: result of the latest pure operator (or the set parked by Swap)
           res          \* outcome of the last call
 
-vars == <<s, res>>
+vars == <<s, r, res>>
 
 Rng(q) == {q[i] : i \in DOMAIN q}
 Front(q) == SubSeq(q, 1, Len(q) - 1)
@@ -24,9 +28,9 @@ Keep(q, X) == SelectSeq(q, LAMBDA e : e \in X)
 Drop(q, X) == SelectSeq(q, LAMBDA e : e \notin X)
 
 RECURSIVE AppendNew(_, _)
-\* q followed by the elements of r that are new, in order of first occurrence
-AppendNew(q, r) == IF r = <<>> THEN q
-                   ELSE AppendNew(IF Head(r) \in Rng(q) THEN q ELSE Append(q, Head(r)), Tail(r))
+\* q followed by the elements of w that are new, in order of first occurrence
+AppendNew(q, w) == IF w = <<>> THEN q
+                   ELSE AppendNew(IF Head(w) \in Rng(q) THEN q ELSE Append(q, Head(w)), Tail(w))
 
 Args == UNION {[1..n -> Elem] : n \in 0..MaxArg}          \* may contain duplicates
 DArgs == {q \in Args : NoDup(q)}                          \* duplicate-free ones
@@ -43,25 +47,34 @@ Err(e) == [k |-> "err", e |-> e]
 SeqRes(q) == [k |-> "seq", q |-> q]
 Bool(b) == [k |-> "bool", b |-> b]
 
-Init == s = <<>> /\ res = None
+Init == s = <<>> /\ r = <<>> /\ res = None
 
-Add(x) == /\ s' = AppendNew(s, <<x>>) /\ res' = None
-Discard(x) == /\ s' = Drop(s, {x}) /\ res' = None
-Remove(x) == IF x \in Rng(s) THEN s' = Drop(s, {x}) /\ res' = None
-                             ELSE s' = s /\ res' = Err("KeyError")
-PopLast == IF s = <<>> THEN s' = s /\ res' = Err("KeyError")
-                       ELSE s' = Front(s) /\ res' = Val(Last(s))
-PopFirst == IF s = <<>> THEN s' = s /\ res' = Err("KeyError")
-                        ELSE s' = Tail(s) /\ res' = Val(Head(s))
-Clear == s' = <<>> /\ res' = None
+\* (the actions below say what happens to the addressed set; OnS adds that the other set stays as it is)
+Add0(x) == /\ s' = AppendNew(s, <<x>>) /\ res' = None
+Discard0(x) == /\ s' = Drop(s, {x}) /\ res' = None
+Remove0(x) == IF x \in Rng(s) THEN s' = Drop(s, {x}) /\ res' = None
+                              ELSE s' = s /\ res' = Err("KeyError")
+PopLast0 == IF s = <<>> THEN s' = s /\ res' = Err("KeyError")
+                        ELSE s' = Front(s) /\ res' = Val(Last(s))
+PopFirst0 == IF s = <<>> THEN s' = s /\ res' = Err("KeyError")
+                         ELSE s' = Tail(s) /\ res' = Val(Head(s))
+Clear0 == s' = <<>> /\ res' = None
+Add(x) == Add0(x) /\ r' = r
+Discard(x) == Discard0(x) /\ r' = r
+Remove(x) == Remove0(x) /\ r' = r
+PopLast == PopLast0 /\ r' = r
+PopFirst == PopFirst0 /\ r' = r
+Clear == Clear0 /\ r' = r
+\* the other set becomes the addressed one
+Swap == s' = r /\ r' = s /\ res' = None
 
 \* in-place operators with an ordered argument q (any iterable)
-IOr(q) == s' = AppendNew(s, q) /\ res' = None
-IAnd(q) == s' = Keep(s, Rng(q)) /\ res' = None
-ISub(q) == s' = Drop(s, Rng(q)) /\ res' = None
+IOr(q) == s' = AppendNew(s, q) /\ res' = None /\ r' = r
+IAnd(q) == s' = Keep(s, Rng(q)) /\ res' = None /\ r' = r
+ISub(q) == s' = Drop(s, Rng(q)) /\ res' = None /\ r' = r
 XorSet(q) == (Rng(s) \ Rng(q)) \cup (Rng(q) \ Rng(s))
 IXor(q) == /\ s' \in {t \in Orders(XorSet(q)) : OrderOK(t, XorSet(q), s)}
-           /\ res' = None
+           /\ res' = None /\ r' = r
 
 \* pure operators: s unchanged, result is a new ordered set with the right members
 PureSet(op, q) == CASE op = "or" -> Rng(s) \cup Rng(q)
@@ -70,27 +83,27 @@ PureSet(op, q) == CASE op = "or" -> Rng(s) \cup Rng(q)
                     [] op = "xor" -> XorSet(q)
 PureOps == {"or", "and", "sub", "xor"}
 Pure(op, q) == /\ s' = s
-               /\ \E t \in Orders(PureSet(op, q)) : res' = SeqRes(t)
+               /\ \E t \in Orders(PureSet(op, q)) : res' = SeqRes(t) /\ r' = t
 
 \* iterate over the set, removing the element being visited when it is in F;
 \* the visit sequence is the outcome
-IterRemove(F) == s' = Drop(s, F) /\ res' = SeqRes(s)
+IterRemove(F) == s' = Drop(s, F) /\ res' = SeqRes(s) /\ r' = r
 \* the same walking backwards (reversed)
-RevIterRemove(F) == s' = Drop(s, F) /\ res' = SeqRes(Reverse(s))
+RevIterRemove(F) == s' = Drop(s, F) /\ res' = SeqRes(Reverse(s)) /\ r' = r
 
 \* comparison with an ordered collection holding q (duplicate-free)
-Eq(q) == s' = s /\ res' = Bool(s = q)
-Ne(q) == s' = s /\ res' = Bool(s # q)
+Eq(q) == s' = s /\ res' = Bool(s = q) /\ r' = r
+Ne(q) == s' = s /\ res' = Bool(s # q) /\ r' = r
 
 \* construction from an iterable (the constructor uses |=)
-New(q) == s' = AppendNew(<<>>, q) /\ res' = None
+New(q) == s' = AppendNew(<<>>, q) /\ res' = None /\ r' = r
 
 \* the aliased forms  s op= s
 ISelf(op) == CASE op = "or" -> IOr(s) [] op = "and" -> IAnd(s)
                [] op = "sub" -> ISub(s) [] op = "xor" -> IXor(s)
 
 Next == \/ \E x \in Elem : Add(x) \/ Discard(x) \/ Remove(x)
-        \/ PopLast \/ PopFirst \/ Clear
+        \/ PopLast \/ PopFirst \/ Clear \/ Swap
         \/ \E q \in Args : IOr(q) \/ IAnd(q) \/ ISub(q) \/ IXor(q) \/ New(q)
         \/ \E q \in DArgs : (\E op \in PureOps : Pure(op, q)) \/ Eq(q) \/ Ne(q)
         \/ \E F \in SUBSET Elem : IterRemove(F) \/ RevIterRemove(F)
@@ -100,8 +113,10 @@ Spec == Init /\ [][Next]_vars
 
 ----------------------------------------------------------------------------
 (* Properties (C17) *)
-TypeOK == s \in Seq(Elem)
-NoDuplicates == NoDup(s)
+TypeOK == s \in Seq(Elem) /\ r \in Seq(Elem)
+NoDuplicates == NoDup(s) /\ NoDup(r)
+\* no call on the addressed set changes the other set (only a pure operator replaces it, only Swap exchanges the two)
+OtherSetUntouched == [][r' = r \/ Swap \/ (\E op \in PureOps, q \in DArgs : Pure(op, q))]_vars
 
 \* observations a client can make; the trace specification compares these
 ObsList == s
@@ -113,7 +128,7 @@ ObsLast == IF s = <<>> THEN <<>> ELSE <<Last(s)>>
 
 \* elements that stay keep their relative order; elements that arrive one at a
 \* time or by |= are appended in argument order (first-insertion order)
-SurvivorsKeepOrder == [][(\E q \in Args : New(q)) \/ Keep(s', Rng(s)) = Keep(s, Rng(s'))]_vars
+SurvivorsKeepOrder == [][(\E q \in Args : New(q)) \/ Swap \/ Keep(s', Rng(s)) = Keep(s, Rng(s'))]_vars
 \* single-element operations change membership of that element only
 Frame == [][\A x \in Elem :
              (Add(x) => Rng(s') = Rng(s) \cup {x}) /\
